@@ -47,7 +47,11 @@ NTags(i) == { <<Log[i].req.nvar>> \o t : t \in Tags(Log[i].req) }
 \* when every one of these records is a recorded known finding)
 Gaps ==
   LET cand   == {j \in Recs : ~DocumentedRefusal(Log[j].req)}
-      wanted == UNION { NTags(i) : i \in cand }
+      \* every kind of constraint item of the vocabulary must be exercised with success, whatever the request space
+      \* happens to contain (sill items: one variable only, they are refused otherwise)
+      vocab  == { <<n, "cons", e, t>> : n \in 1..3, e \in {"RANGE", "ANGLE", "PARAM"}, t \in {"LOWER", "UPPER", "EQUAL"} }
+                \cup { <<1, "cons", "SILL", t>> : t \in {"LOWER", "UPPER", "EQUAL"} }
+      wanted == UNION { NTags(i) : i \in cand } \cup vocab
       got    == UNION { NTags(i) : i \in {j \in Recs : Succeeded(Log[j])} }
   IN { [tag |-> t, idx |-> SetToSeq({i \in cand : t \in NTags(i)})] : t \in wanted \ got }
 
